@@ -15,6 +15,7 @@ pub fn exec_case(case: &Value) -> Value {
         "admits" => props::c05::exec(case),
         "scenario" => scenario::exec(case),
         "xpath" | "xpath_pair" => props::c18::exec(case),
+        "num_cmp" => props::c04::exec_num_cmp(case),
         _ => serde_json::json!({ "error": format!("unknown op {op}") }),
     }
 }
@@ -24,6 +25,7 @@ pub fn gen_cases(prop: &str, tier: &str, seed: u64, out: &mut dyn FnMut(Value)) 
         "C05" => props::c05::gen(tier, seed, out),
         "C03" => props::c03::gen(tier, seed, out),
         "C18" => props::c18::gen(tier, seed, out),
+        "C04" => props::c04::gen(tier, seed, out),
         _ => return Err(format!("no generator for {prop}")),
     }
     Ok(())
